@@ -2,6 +2,9 @@ import Infretis.Lemmas.ReadersXyz
 import Infretis.Lemmas.ReadersLmpRun
 import Infretis.Lemmas.ReadersSpec
 import Infretis.Lemmas.ReadersTrr
+import Infretis.Lemmas.ReadersObj
+import Infretis.Lemmas.ReadersTrrData
+import Infretis.Lemmas.ReadersGmx
 /-!
 # C13 — on-the-fly trajectory readers never return a torn frame
 
@@ -523,6 +526,401 @@ theorem trr_header_bytes (little dbl : Bool) (ns : List Nat) (hlen : ns.length =
 example : isDouble ([0, 0, 72, 0, 0, 0, 0, 288, 288, 0, 12, 5, 0].map Int.ofNat) = .ok true ∧
     (trrHeader (encHeader true [0, 0, 72, 0, 0, 0, 0, 288, 288, 0, 12, 5, 0] (List.replicate 16 7) ++ [1, 2, 3])).map
       (fun r => (r.1.frame.hsize, r.1.frame.dsize, r.1.little, r.1.double, r.2)) = .ok (92, 648, true, true, [1, 2, 3]) := by
+  refine ⟨by decide, by decide⟩
+
+/-! ## the reader OBJECT: `ReadAndProcessOnTheFly` with `current_position` / `previous_position`
+
+Model `rpRun` (Model/ReadersObj.lean): one object polled on a sequence of file states (`none` = the file does
+not exist: `FileNotFoundError → []`).  The driver runs `rpRun`; the tie compares frames, `current_position`
+and `previous_position` after every poll. -/
+
+/-- **`previous_position` is write-only, and the object is the function model**: for every content and every
+    object state, the frames returned and the new `current_position` are those of `xyzReader` / `lmpReader`
+    at `current_position` — `previous_position` never influences a poll. -/
+theorem rp_object_is_function (v : Variant) (content : List Char) (o : RP) :
+    objProj (xyzReaderO v content o) = xyzReader v content o.cur
+    ∧ objProj (lmpReaderO content o) = lmpReader content o.cur :=
+  ⟨xyzReaderO_proj v content o, lmpReaderO_proj content o⟩
+
+example : xyzReaderO .repaired (xyzContent witness) ⟨0, 7⟩ = .ok ([wF1.decode, wF2.decode], ⟨88, 43⟩)
+    ∧ xyzReader .repaired (xyzContent witness) 0 = .ok ([wF1.decode, wF2.decode], 88) := by decide
+
+/-- **the object polled on growing prefixes is `pollAll`** — so `xyz_repaired_exact`, `lmp_exact` and all
+    their consequences are theorems about the object the driver runs -/
+theorem rp_eq_pollAll (v : Variant) (content : List Char) (cuts : List Nat) :
+    stagesFrames (rpRun (xyzReaderO v) (visible content (cuts.map some)) rpInit) = pollAll (xyzReader v) content cuts 0
+    ∧ stagesFrames (rpRun lmpReaderO (visible content (cuts.map some)) rpInit) = pollAll lmpReader content cuts 0 :=
+  ⟨rpRun_eq_pollAll _ _ (xyzReaderO_proj v) content cuts rpInit,
+   rpRun_eq_pollAll _ _ lmpReaderO_proj content cuts rpInit⟩
+
+example : stagesFrames (rpRun (xyzReaderO .repaired) (visible (xyzContent witness) ([37, 43, 88].map some)) rpInit)
+    = .ok [[], [wF1.decode], [wF2.decode]] := by decide
+
+/-- **xyz, any sequence of polls of an append-only file (absent, any prefix, in any order), with positions**:
+    every poll returns exactly the not yet returned frames that are completely visible, and leaves
+    `current_position` at the end of the last frame returned so far — never inside a frame. -/
+theorem rp_xyz_exact_pos (N : Nat) (hN : 1 ≤ N) (frames : List XyzF) (hwf : ∀ f ∈ frames, f.WF N)
+    (evs : List (Option Nat)) :
+    stagesPos (rpRun (xyzReaderO .repaired) (visible (xyzContent frames) evs) rpInit)
+      = .ok (exactStagesPos (xyzLens frames) (xyzDecoded frames) evs 0) := by
+  have := xyz_rpRun_pos .repaired N hN frames hwf evs (Or.inl rfl) 0 (Nat.zero_le _) 0
+  simpa [sumLens, xyzContent, xyzLens, xyzDecoded, rpInit] using this
+
+instance : DecidableEq XFrame := inferInstanceAs (DecidableEq (List (List (List Char))))
+
+/-- file absent, absent, 37 bytes (inside frame 1), frame 1 complete, no growth, everything, no growth -/
+example : (∀ f ∈ witness, f.WF 2) ∧
+    stagesPos (rpRun (xyzReaderO .repaired) (visible (xyzContent witness) [none, none, some 37, some 43, some 43, some 88, some 88]) rpInit)
+      = .ok [(([] : List XFrame), 0), ([], 0), ([], 0), ([wF1.decode], 43), ([], 43), ([wF2.decode], 88), ([], 88)] := by
+  refine ⟨witness_wf, ?_⟩
+  decide
+
+/-- **LAMMPS, the same with the one-poll lag**: `current_position` is the end of the last frame returned, minus
+    one while that frame's final newline has not been consumed -/
+theorem rp_lmp_exact_pos (N : Nat) (hN : 1 ≤ N) (frames : List LmpF) (hwf : ∀ f ∈ frames, f.WF N)
+    (evs : List (Option Nat)) :
+    stagesPos (rpRun lmpReaderO (visible (lmpContent frames) evs) rpInit)
+      = .ok (lmpStagesPos (lmpLens frames) (lmpDecoded N frames) evs 0 false) := by
+  have := lmp_rpRun_pos N hN frames hwf evs 0 false (Nat.zero_le _) (by intro h; cases h) 0
+  simpa [sumLens, lmpContent, lmpLens, lmpDecoded, rpInit] using this
+
+example : (∀ f ∈ wLmpFrames, f.WF 1) ∧
+    stagesPos (rpRun lmpReaderO (visible (lmpContent wLmpFrames) [none, some 41, none, some 41, some 94, some 94]) rpInit)
+      = .ok [([], 0), ([wL1.decode 1], 41), ([], 41), ([], 41), ([], 42), ([wL2.decode 1], 94)] :=
+  ⟨wLmp_wf, by decide⟩
+
+/-- **SAFETY and COMPLETENESS of the xyz reader object over any schedule of polls** (polls before the file
+    exists, polls without growth, the final polls after the program exited): with non-decreasing visible sizes,
+    after every poll the frames returned so far are exactly the frames completely on disk (each once, in order,
+    as written, all their bytes visible); once a poll has seen the whole file everything has been returned. -/
+theorem rp_xyz_safety_complete (N : Nat) (hN : 1 ≤ N) (frames : List XyzF) (hwf : ∀ f ∈ frames, f.WF N)
+    (evs : List (Option Nat)) (hs : (evs.map visBytes).Pairwise (· ≤ ·)) :
+    ∃ stages, rpRun (xyzReaderO .repaired) (visible (xyzContent frames) evs) rpInit = .ok stages
+      ∧ stages.length = evs.length
+      ∧ (∀ k (hk : k < (evs.map visBytes).length),
+          ((stages.map Prod.fst).take (k + 1)).flatten
+            = (xyzDecoded frames).take (completeCount (xyzLens frames) (evs.map visBytes)[k])
+          ∧ sumLens ((xyzLens frames).take (completeCount (xyzLens frames) (evs.map visBytes)[k]))
+              ≤ (evs.map visBytes)[k])
+      ∧ (∀ c ∈ (evs.map visBytes).getLast?, (xyzContent frames).length ≤ c →
+          (stages.map Prod.fst).flatten = xyzDecoded frames) := by
+  have hab := rpRun_absent_as_empty (xyzReaderO .repaired) (xyzReaderO_empty .repaired) (xyzContent frames) evs rpInit
+  have hpa := (rp_eq_pollAll .repaired (xyzContent frames) (evs.map visBytes)).1
+  rw [← hab] at hpa
+  obtain ⟨st0, h0, h1, h2, h3⟩ := xyz_repaired_safety_complete N hN frames hwf (evs.map visBytes) hs
+  rw [h0] at hpa
+  cases hr : rpRun (xyzReaderO .repaired) (visible (xyzContent frames) evs) rpInit with
+  | error e => rw [hr] at hpa; simp [stagesFrames] at hpa
+  | ok stages =>
+    rw [hr] at hpa
+    simp only [stagesFrames, Except.ok.injEq] at hpa
+    refine ⟨stages, rfl, ?_, ?_, ?_⟩
+    · have := congrArg List.length hpa
+      simpa [h1] using this
+    · intro k hk
+      rw [hpa]
+      exact h2 k hk
+    · intro c hc hle
+      rw [hpa]
+      exact h3 c hc hle
+
+example : ([none, some 37, some 37, some 88].map visBytes).Pairwise (· ≤ ·) := by decide
+
+/-- **the same for the LAMMPS reader object** (with its one-poll lag, as in `lmp_safety_complete`) -/
+theorem rp_lmp_safety_complete (N : Nat) (hN : 1 ≤ N) (frames : List LmpF) (hwf : ∀ f ∈ frames, f.WF N)
+    (evs : List (Option Nat)) (hs : (evs.map visBytes).Pairwise (· ≤ ·)) :
+    ∃ stages, rpRun lmpReaderO (visible (lmpContent frames) evs) rpInit = .ok stages
+      ∧ stages.length = evs.length
+      ∧ (∀ k (hk : k < (evs.map visBytes).length), ∃ d,
+          ((stages.map Prod.fst).take (k + 1)).flatten = (lmpDecoded N frames).take d ∧ d ≤ frames.length
+          ∧ sumLens ((lmpLens frames).take d) ≤ (evs.map visBytes)[k] + 1)
+      ∧ (∀ pre T, evs.map visBytes = pre ++ [T, T] → (lmpContent frames).length ≤ T →
+          (stages.map Prod.fst).flatten = lmpDecoded N frames) := by
+  have hab := rpRun_absent_as_empty lmpReaderO lmpReaderO_empty (lmpContent frames) evs rpInit
+  have hpa := (rp_eq_pollAll .repaired (lmpContent frames) (evs.map visBytes)).2
+  rw [← hab] at hpa
+  obtain ⟨st0, h0, h1, h2, h3⟩ := lmp_safety_complete N hN frames hwf (evs.map visBytes) hs
+  rw [h0] at hpa
+  cases hr : rpRun lmpReaderO (visible (lmpContent frames) evs) rpInit with
+  | error e => rw [hr] at hpa; simp [stagesFrames] at hpa
+  | ok stages =>
+    rw [hr] at hpa
+    simp only [stagesFrames, Except.ok.injEq] at hpa
+    refine ⟨stages, rfl, ?_, ?_, ?_⟩
+    · have := congrArg List.length hpa
+      simpa [h1] using this
+    · intro k hk
+      rw [hpa]
+      exact h2 k hk
+    · intro pre T hc hle
+      rw [hpa]
+      exact h3 pre T hc hle
+
+example : ([none, some 41, some 94, some 94].map visBytes) = [0, 41] ++ [94, 94] := by decide
+
+/-- **a file that does not reach beyond `current_position`** — truncated, replaced by something shorter, or
+    absent — **is inert**: the poll returns nothing, moves neither position, raises nothing, whatever the
+    file contains (both readers, both variants). -/
+theorem rp_poll_short_file (v : Variant) (o : RP) (file : Option (List Char))
+    (h : ∀ content ∈ file, content.length ≤ o.cur) :
+    rpPoll (xyzReaderO v) o file = .ok ([], o) ∧ rpPoll lmpReaderO o file = .ok ([], o) := by
+  cases file with
+  | none => exact ⟨rfl, rfl⟩
+  | some content =>
+    have hc := h content rfl
+    exact ⟨xyzReaderO_short v content o hc, lmpReaderO_short content o hc⟩
+
+example : rpPoll (xyzReaderO .repaired) ⟨43, 0⟩ (some ((xyzContent witness).take 20)) = .ok ([], ⟨43, 0⟩) := by decide
+
+/-! ## TRR: the data part of a frame (`get_data` / `read_trr_data` / `read_matrix` / `read_coord`) -/
+
+/-- **layout of the data part, for every combination of the six presence fields and both precisions**: on a
+    header whose announced blocks have the sizes of their reals (`FieldsOK`: box/vir/pres = 9 reals, x/v/f =
+    natoms·3 reals, or absent), `get_data` returns the data **iff** all `data_size = box+vir+pres+x+v+f` bytes
+    are there; it then consumes exactly `data_size` bytes (next offset exact: `bytes_read` and the file pointer
+    stay together), and the blocks are exactly the announced ones, in the order box vir pres x v f, each with its
+    announced length, cut at the cumulative offsets; a missing byte gives `EOFError` or `struct.error`, never
+    data. -/
+theorem trr_data_layout (h : THeader) (hok : FieldsOK (if h.double then 8 else 4) (dataFields h.ints))
+    (bs : List Nat) :
+    0 ≤ dataSize h.ints ∧
+    ((dataSize h.ints).toNat ≤ bs.length →
+        trrData h bs = ⟨.ok (sliceBlocks (dataFields h.ints) bs), bs.drop (dataSize h.ints).toNat⟩
+        ∧ (sliceBlocks (dataFields h.ints) bs).map Prod.fst
+            = ((dataFields h.ints).filter (fun p => decide (p.2.1 ≠ 0))).map Prod.fst
+        ∧ (sliceBlocks (dataFields h.ints) bs).map (fun b => b.2.length)
+            = ((dataFields h.ints).filter (fun p => decide (p.2.1 ≠ 0))).map (fun p => p.2.1.toNat)) ∧
+    (bs.length < (dataSize h.ints).toNat →
+        (trrData h bs).res = .error .eof ∨ (trrData h bs).res = .error .struct) := by
+  obtain ⟨h1, h2, h3⟩ := trrData_layout h hok bs
+  refine ⟨h1, ?_, h3⟩
+  intro hl
+  refine ⟨h2 hl, sliceBlocks_keys _ _, sliceBlocks_lengths _ _ ?_⟩
+  obtain ⟨_, h5⟩ := fieldsTotal_eq_sum _ _ hok
+  rw [← dataSize_eq_sum] at h5
+  omega
+
+/-- 1 atom, single precision, box + x + f (no vir, pres, v): 36 + 12 + 12 = 60 bytes -/
+def wTH : THeader :=
+  { little := true, double := false, ints := [0, 0, 36, 0, 0, 0, 0, 12, 0, 12, 1, 5, 0], hlen := 84 }
+
+theorem wTH_ok : FieldsOK (if wTH.double then 8 else 4) (dataFields wTH.ints) := by
+  intro p hp
+  simp only [wTH, dataFields, List.getD_eq_getElem?_getD, List.mem_cons, List.not_mem_nil, or_false] at hp
+  rcases hp with rfl | rfl | rfl | rfl | rfl | rfl <;> simp <;> decide
+
+example : dataSize wTH.ints = 60
+    ∧ (trrData wTH (List.replicate 62 1)).rest.length = 2
+    ∧ ((sliceBlocks (dataFields wTH.ints) (List.replicate 62 1)).map (fun b => (b.1, b.2.length))) = [(0, 36), (3, 12), (5, 12)]
+    ∧ (trrData wTH (List.replicate 59 1)).res = .error .struct
+    ∧ (trrData wTH (List.replicate 48 1)).res = .error .eof := by
+  refine ⟨by decide, by decide, by decide, by decide, by decide⟩
+
+/-- the hypothesis `FieldsOK` is needed: a header whose x block is announced with the size of the *other*
+    precision (box says single, x sized for double) makes `get_data` consume 36 + 12 bytes while `data_size`
+    — what `get_gromacs_frames` adds to `bytes_read` — is 36 + 24: guards and file pointer drift apart.
+    (GROMACS does not write such headers; the tie feeds them to model and code alike.) -/
+theorem trr_data_inconsistent_header_drifts :
+    dataSize [0, 0, 36, 0, 0, 0, 0, 24, 0, 0, 1, 5, 0] = 60
+    ∧ (trrData { little := true, double := false, ints := [0, 0, 36, 0, 0, 0, 0, 24, 0, 0, 1, 5, 0], hlen := 84 }
+          (List.replicate 70 1)).rest.length = 70 - 48
+    ∧ ¬ FieldsOK 4 (dataFields [0, 0, 36, 0, 0, 0, 0, 24, 0, 0, 1, 5, 0]) := by
+  refine ⟨by decide, by decide, ?_⟩
+  intro hok
+  have := hok (3, 24, 3) (by decide)
+  simp at this
+
+/-! ## TRR: the whole `get_gromacs_frames` generator at byte level
+
+Model `gRun` / `gRemaining` / `gGen` (Model/ReadersObj.lean): the generator as the code is — size guards,
+`read_trr_header` and `get_data` on the bytes visible at that moment, `bytes_read` next to the file pointer,
+the swallowed `EOFError`s with their stale locals, and the unguarded final phase `read_remaining_trr`.  A
+well-formed file (`gFile frames`, every frame `GFrame.WF dbl`): headers as GROMACS writes them (either byte
+order per frame, one precision per file, 13 ints < 2³¹), any combination of the six blocks per frame with the
+sizes of their reals, payload of exactly `data_size` bytes. -/
+
+/-- **composition**: on a well-formed file and for every sequence of observed sizes (≤ the final length), the
+    byte-level generator *is* the abstract guard machine `trrRun` (about which `trr_reads_safe` and
+    `trr_no_frame_withheld` speak) — same waits, same reads at the same offsets with the same lengths, and
+    `yield k` hands out exactly the blocks of frame `k`; it never dies. -/
+theorem trr_generator_is_guard_machine (dbl : Bool) (frames : List GFrame) (hwf : ∀ f ∈ frames, f.WF dbl)
+    (sizes : List Nat) (hsz : ∀ s ∈ sizes, s ≤ (gFile frames).length) :
+    (gRun (gFile frames) sizes gInit).2
+        = (trrRun (frames.map (GFrame.t dbl)) sizes tInit).map (liftEv frames)
+    ∧ (gRun (gFile frames) sizes gInit).1.dead = false :=
+  gRun_rel dbl frames hwf sizes hsz gInit tInit (gInit_rel dbl frames)
+
+/-- one atom, single precision, little-endian: box + x (frame 1), box + x + v (frame 2) -/
+def wG1 : GFrame :=
+  { little := true, ns := [0, 0, 36, 0, 0, 0, 0, 12, 0, 0, 1, 0, 0], reals := List.replicate 8 0,
+    payload := List.replicate 48 1 }
+def wG2 : GFrame :=
+  { little := false, ns := [0, 0, 36, 0, 0, 0, 0, 12, 12, 0, 1, 1, 0], reals := List.replicate 8 0,
+    payload := List.replicate 60 2 }
+
+theorem wG_fields (ns : List Nat) (h : ns = wG1.ns ∨ ns = wG2.ns) :
+    FieldsOK 4 (dataFields (ns.map Int.ofNat)) := by
+  intro p hp
+  rcases h with rfl | rfl <;>
+  · simp only [wG1, wG2, dataFields, List.map_cons, List.map_nil, List.getD_eq_getElem?_getD, List.mem_cons,
+      List.not_mem_nil, or_false] at hp
+    rcases hp with rfl | rfl | rfl | rfl | rfl | rfl <;> simp <;> decide
+
+theorem wG_wf : ∀ f ∈ [wG1, wG2], f.WF false := by
+  intro f hf
+  simp only [List.mem_cons, List.not_mem_nil, or_false] at hf
+  rcases hf with rfl | rfl
+  · exact ⟨rfl, by intro n hn; simp only [wG1, List.mem_cons, List.not_mem_nil, or_false] at hn; omega,
+      by decide, rfl, wG_fields _ (Or.inl rfl), by decide⟩
+  · exact ⟨rfl, by intro n hn; simp only [wG2, List.mem_cons, List.not_mem_nil, or_false] at hn; omega,
+      by decide, rfl, wG_fields _ (Or.inr rfl), by decide⟩
+
+example : (∀ f ∈ [wG1, wG2], f.WF false) ∧ (gFile [wG1, wG2]).length = 276 := by
+  refine ⟨wG_wf, ?_⟩
+  rw [gFile_length false _ wG_wf]
+  decide
+
+/-- **SAFETY of the byte-level generator while the program runs**: every read lies inside the bytes visible
+    at that moment and is exactly the header or the data part of a frame at that frame's offset; every yield
+    hands out the blocks of a frame of the file; no `EOFError` is swallowed, nothing is raised, no endless
+    wait — for every sequence of observed sizes. -/
+theorem trr_generator_safe (dbl : Bool) (frames : List GFrame) (hwf : ∀ f ∈ frames, f.WF dbl)
+    (sizes : List Nat) (hsz : ∀ s ∈ sizes, s ≤ (gFile frames).length) :
+    ∀ e ∈ (gRun (gFile frames) sizes gInit).2,
+      gBad e = false ∧
+      (∀ off len size, e = .read off len size → off + len ≤ size ∧ ∃ k f, frames[k]? = some f ∧
+        ((off = (gFile (frames.take k)).length ∧ len = 76 + 2 * (if dbl then 8 else 4))
+          ∨ (off = (gFile (frames.take k)).length + (76 + 2 * (if dbl then 8 else 4)) ∧ len = f.payload.length))) := by
+  intro e he
+  rw [(trr_generator_is_guard_machine dbl frames hwf sizes hsz).1] at he
+  obtain ⟨te, hte, rfl⟩ := List.mem_map.mp he
+  refine ⟨gBad_lift frames te, ?_⟩
+  intro off len size heq
+  have hH : ∀ f ∈ frames.map (GFrame.t dbl), f.hsize = 76 + 2 * (if dbl then 8 else 4) := by
+    intro f hf
+    obtain ⟨g, _, rfl⟩ := List.mem_map.mp hf
+    rfl
+  have hok := trr_reads_safe (frames.map (GFrame.t dbl)) _ hH (H_le dbl) (H_pos dbl) sizes te hte
+  cases te with
+  | wait => cases heq
+  | yield k =>
+    have h := congrArg gYield heq
+    rw [gYield_lift] at h
+    simp [tYield, gYield] at h
+  | read o l s =>
+    simp only [liftEv, GEv.read.injEq] at heq
+    obtain ⟨rfl, rfl, rfl⟩ := heq
+    obtain ⟨h1, k, tf, htf, h2⟩ := hok
+    refine ⟨h1, k, ?_⟩
+    rw [List.getElem?_map] at htf
+    cases hf : frames[k]? with
+    | none => rw [hf] at htf; cases htf
+    | some f =>
+      rw [hf] at htf
+      simp only [Option.map_some, Option.some.injEq] at htf
+      subst htf
+      refine ⟨f, rfl, ?_⟩
+      rw [tOffset_eq_prefix dbl frames hwf] at h2
+      simpa [GFrame.t] using h2
+
+example : (gRun (gFile [wG1, wG2]) [100, 276] gInit).2 = [.wait, .wait] := by decide
+
+/-- **each frame once, in order (running phase)**: the frames yielded while the program runs are exactly the
+    first `n` frames of the file, each once, in order, with exactly their bytes. -/
+theorem trr_generator_yields_prefix (dbl : Bool) (frames : List GFrame) (hwf : ∀ f ∈ frames, f.WF dbl)
+    (sizes : List Nat) (hsz : ∀ s ∈ sizes, s ≤ (gFile frames).length) :
+    ∃ n, n ≤ frames.length ∧
+      (gRun (gFile frames) sizes gInit).2.filterMap gYield = (frames.take n).map GFrame.blocks := by
+  have hH : ∀ f ∈ frames.map (GFrame.t dbl), f.hsize = 76 + 2 * (if dbl then 8 else 4) := by
+    intro f hf
+    obtain ⟨g, _, rfl⟩ := List.mem_map.mp hf
+    rfl
+  obtain ⟨n, h1, h2, h3⟩ := trrRun_yields (frames.map (GFrame.t dbl)) _ hH (H_le dbl) (H_pos dbl) sizes tInit
+    (tInit_inv _ _) (Nat.zero_le _)
+  have hn : n ≤ frames.length := by
+    rw [h2] at h3; simpa [tInit] using h3
+  refine ⟨n, hn, ?_⟩
+  rw [(trr_generator_is_guard_machine dbl frames hwf sizes hsz).1, List.filterMap_map]
+  have : (gYield ∘ liftEv frames) = fun e => (tYield e).map (blocksAt frames) := by
+    funext e; exact gYield_lift frames e
+  rw [this, ← List.map_filterMap, h1]
+  exact range_map_blocksAt frames n hn
+
+/-- **COMPLETENESS of the whole generator** (running phase + `read_remaining_trr` after the program has ended):
+    every frame of the file is yielded exactly once, in order, with exactly its bytes, and nothing is raised —
+    for every sequence of sizes observed while the program ran (the generator is not left inside its inner
+    wait loop, which it only leaves when the data are there). -/
+theorem trr_generator_complete (dbl : Bool) (frames : List GFrame) (hwf : ∀ f ∈ frames, f.WF dbl)
+    (sizes : List Nat) (hsz : ∀ s ∈ sizes, s ≤ (gFile frames).length)
+    (hnd : (gRun (gFile frames) sizes gInit).1.inData = false) :
+    (gGen (gFile frames) sizes).filterMap gYield = frames.map GFrame.blocks
+    ∧ ∀ e ∈ gGen (gFile frames) sizes, gBad e = false := by
+  have hH : ∀ f ∈ frames.map (GFrame.t dbl), f.hsize = 76 + 2 * (if dbl then 8 else 4) := by
+    intro f hf
+    obtain ⟨g, _, rfl⟩ := List.mem_map.mp hf
+    rfl
+  obtain ⟨hev, hdead⟩ := trr_generator_is_guard_machine dbl frames hwf sizes hsz
+  have hrel := gRun_final_rel dbl frames hwf sizes hsz gInit tInit (gInit_rel dbl frames)
+  obtain ⟨n, h1, h2, h3⟩ := trrRun_yields (frames.map (GFrame.t dbl)) _ hH (H_le dbl) (H_pos dbl) sizes tInit
+    (tInit_inv _ _) (Nat.zero_le _)
+  have hn : n ≤ frames.length := by
+    rw [h2] at h3; simpa [tInit] using h3
+  have hk : (sizes.foldl (fun s size => (trrTick (frames.map (GFrame.t dbl)) size s).1) tInit).k = n := by
+    rw [h2]; simp [tInit]
+  have hrun : (gRun (gFile frames) sizes gInit).2.filterMap gYield = (frames.take n).map GFrame.blocks := by
+    rw [hev, List.filterMap_map]
+    have : (gYield ∘ liftEv frames) = fun e => (tYield e).map (blocksAt frames) := by
+      funext e; exact gYield_lift frames e
+    rw [this, ← List.map_filterMap, h1]
+    exact range_map_blocksAt frames n hn
+  have hbadrun : ∀ e ∈ (gRun (gFile frames) sizes gInit).2, gBad e = false :=
+    fun e he => (trr_generator_safe dbl frames hwf sizes hsz e he).1
+  -- where the running phase ended: at the start of frame n
+  have hpend := hrel.pend
+  have hpos : (gRun (gFile frames) sizes gInit).1.fpos = (gFile (frames.take n)).length
+      ∧ (gRun (gFile frames) sizes gInit).1.bytesRead = ((gFile (frames.take n)).length : Int) := by
+    cases hp : (sizes.foldl (fun s size => (trrTick (frames.map (GFrame.t dbl)) size s).1) tInit).pending with
+    | some d =>
+      rw [hp] at hpend
+      rw [hpend.1] at hnd; cases hnd
+    | none =>
+      rw [hp] at hpend
+      have hoff := hpend.2
+      rw [hk, tOffset_eq_prefix dbl frames hwf] at hoff
+      exact ⟨by rw [hrel.fpos, hoff], by rw [hrel.br, hoff]⟩
+  obtain ⟨hfp, hbr⟩ := hpos
+  unfold gGen
+  simp only [hdead, Bool.false_eq_true, if_false, hnd]
+  rw [hbr, hfp]
+  by_cases hrem : ((gFile frames).length : Int) - ((gFile (frames.take n)).length : Int) > 0
+  · simp only [hrem, if_true]
+    obtain ⟨hy, hb⟩ := gRemaining_yields dbl frames hwf ((gFile frames).length + 1) n hn
+      (by have := frames_le_file dbl frames hwf; omega)
+    refine ⟨?_, ?_⟩
+    · rw [List.filterMap_append, hrun, hy, ← List.map_append, List.take_append_drop]
+    · intro e he
+      rcases List.mem_append.mp he with he | he
+      · exact hbadrun e he
+      · exact hb e he
+  · simp only [hrem, if_false]
+    refine ⟨?_, hbadrun⟩
+    rw [hrun]
+    have hnl : n = frames.length := by
+      rcases Nat.lt_or_ge n frames.length with hlt | hge
+      · exfalso
+        have hf : frames[n]? = some frames[n] := List.getElem?_eq_getElem hlt
+        have h1 := prefix_succ dbl frames hwf n _ hf
+        have h2 := gFile_take_le frames (n + 1)
+        have := H_pos dbl
+        omega
+      · omega
+    rw [hnl, List.take_length]
+
+set_option maxRecDepth 20000 in
+/-- a 276-byte file (< TRR_HEAD_SIZE): nothing can be read while the program runs; the final phase yields both
+    frames, first box + x, then box + x + v -/
+example : (gGen (gFile [wG1, wG2]) [100, 276]).filterMap gYield = [wG1.blocks, wG2.blocks]
+    ∧ (wG2.blocks.map (fun b => (b.1, b.2.length))) = [(0, 36), (3, 12), (4, 12)] := by
   refine ⟨by decide, by decide⟩
 
 end Infretis.C13
